@@ -10,6 +10,8 @@ for f in sorted(glob.glob(os.path.join(ROOT, 'seeded', '*', 'meta.json'))):
     labels = re.sub(r'\s+', ' ', w.get('violated labels', '')).replace('violated: ', '').strip(' ;')
     others = m.get('also_detected_by', [])
     det = ('own check: exit %d' % w[own]) + (f' ({labels})' if labels else '')
+    if m.get('note') and w[own] != 1:
+        det += ' -- ' + m['note']
     if others:
         det += '; also ' + ', '.join(others)
     rows.append((m['id'], (m.get('summary') or '')[:150].replace('|', '/').replace('\n', ' '), det))
